@@ -61,6 +61,7 @@ func ck(cols ...interface{}) model.ClientIndex {
 var c05Cfgs = []c05Cfg{
 	{"schema[a]", `[["a"]]`, nil},
 	{"schema[a],[b,c]", `[["a"],["b","c"]]`, nil},
+	{"schema[a],[b]", `[["a"],["b"]]`, nil}, // two single-column indexes: a batch can change both values of a row, a later one only one of them
 	{"schema[a]+client[a],[n]", `[["a"]]`, []model.ClientIndex{ck("a"), ck("n")}},
 	{"client[c],[m|k1]", `[]`, []model.ClientIndex{ck("c"), ck([2]string{"m", "k1"})}},
 	{"client[a,b]", `[]`, []model.ClientIndex{ck("a", "b")}},
